@@ -10,7 +10,9 @@ SPECIAL_FILES = ["hg:hg.mozilla.org/mozilla-central:widget/cocoa/nsAppShell.mm:9
                  "git:github.com/rust-lang/rust:library/std/src/rt.rs:c8dfcfe046a7680554bf4eb612bad840e7631c4b",
                  "s3:gecko-generated-sources:a5d3747707d6877b0e5cb0a364e3cb9fea8aa4feb6ead138952c2ba46d41045297286385f0e0470146f49403e46bd266e654dfca986de48c230f3a71c2aafed4/ipc/ipdl/PBackgroundChild.cpp:",
                  "cargo:github.com-1ecc6299db9ec823:tokio-1.6.1:src/runtime/task/mod.rs",
-                 "/src/demo/alpha.c", "/src/demo/sub dir/beta.h", "relative/gamma.cpp", "C:\\win\\delta.c"]
+                 "/src/demo/alpha.c", "/src/demo/sub dir/beta.h", "relative/gamma.cpp", "C:\\win\\delta.c",
+                 # names that begin or end in white space (a FILE name runs to the end of its line): they denote other files than their trimmed spellings
+                 "/src/demo/alpha.c ", "/src/demo/zeta.h\t", "\u00a0/src/demo/eta.c", "relative/gamma.cpp  "]
 
 GEN_MODULES = [("genmod1.so", "AAAA0000BBBB1111CCCC2222DDDD33330"), ("genmod2", "0123456789ABCDEF0123456789ABCDEF1"),
                ("genmod3.so", "0F0E0D0C0B0A090807060504030201002"),
